@@ -51,9 +51,6 @@ def classify(body, impl, verdict):
     cfgs = [t[2:].split(",") for t in toks if t.startswith("B:")]
     naming = cfgs[0][7].split(".")
     direct_ts = naming[0] == "tsd" or (naming[0] == "cu" and naming[1] == "~")
-    # Q9: a restart with append continues the base file of the newest time stamp although .restart- siblings are newer
-    if direct_ts and any(c[4] == "1" for c in cfgs[1:]) and "2e726573746172742d" in impl:
-        return "direct-timestamps-append-onto-base-with-restart-siblings"
     return None
 
 
